@@ -126,9 +126,9 @@ def _func(ix, cq, name):
 
 def run(ctx):
     ix = ctx.index
-    rule_ab(ctx, ix)
-    rule_c(ctx, ix)
-    rule_d(ctx, ix)
+    ctx.guard(rule_ab, ctx, ix)
+    ctx.guard(rule_c, ctx, ix)
+    ctx.guard(rule_d, ctx, ix)
 
 
 def rule_ab(ctx, ix):
